@@ -168,6 +168,17 @@ STRUCT = {
                                                    "\n} ", O('m', RX), "b", C('m'), H(1, 'sp'), "\n", C('m'), "\nB\n"],
     'pending-children-on-both-wrapper-lines-and-between': ["A\n", O('m', PN + ' unwrap-block'), "\nif (x) { ", O('t', PT), "a", C('t'), "\n", H(1, 'ind'), "k;\n", O('t', PT), "\nold;\n", C('t'),
                                                            "\n} ", O('m', PN), "b", C('m'), H(1, 'sp'), "\n", C('m'), "\nB\n", O('t', RT), "r", C('t'), "\n"],
+    # flags spelled with a value (XML style): skip='true' still protects the element, unwrap-block="1" still selects the strategy
+    'flags-with-values': ["A\n", O('t', RT + " skip='true'"), "\nq\n", C('t'), "\n", H(1, 'ws'), O('m', RX + ' unwrap-block="1"'), "\n{\n  k;", H(1, 'txt'), "\n}\n", C('m'), "\n",
+                          O('m', "skip=\"skip\" " + RX), "r", C('m'), "\nB", H(1), "\n"],
+    # an indented unwrap block with a ready child alone on a deeper line and a blanks-only line right behind it
+    'indented-unwrap-child-then-blanks-only-line': ["A\n  ", O('m', RX + ' unwrap-block'), "\n  {\n      a();\n      ", O('t', RT), "\n      old();\n      ", C('t'), "\n    ", H(2, 'ind'), "\n      b();\n  }\n  ",
+                                                    C('m'), "\nB\n"],
+    # two crossing pairs of opposite orientation, then ordinary ready elements
+    'two-opposite-crossings-then-ready': ["A", O('t', RT), "a", O('m', PN), "b", C('t'), "c", C('m'), "\n", O('m', PN), "d", O('t', PT), "e", C('m'), "f", C('t'), "\n", O('t', RT), "g", C('t'), H(1, 'ws'),
+                                          O('m', RX), "h", C('m'), "B", H(1)],
+    # characters that some tools count as line terminators are ordinary text here: U+2028, U+2029, U+0085, vertical tab, form feed
+    'unicode-line-separators-are-text': ["A\u2028x\n", H(1, 'ind'), O('m', RX), "\nq\u2029r\x0b\n\x0cs\u0085\n", C('m'), "\n", H(1, 'txt'), "B\u2028\n", O('t', RT), "\nz\n", C('t'), "\n"],
     'unwrap-adjacent-lines': [H(1), "A ", O('m', RX + ' unwrap-block'), H(1, 'ind'), "\n", H(1, 'ind'), C('m'), " B", H(1)],
 }
 
@@ -712,7 +723,7 @@ def c01_pipe_jobs(tier, seed):
                 jobs.append(dict(harness='c01_pipe', label=f'{name} holes={sizes} cfg={cname}',
                                  params=dict(tpl=instantiate(tpl, sizes), cfg=cfg, wrapper='wrapper' in name)))
     tj = transformed_jobs('C01', tier, seed, harness='c01_pipe', extra_params=dict(cfg={}, wrapper=False))
-    return jobs + (tj[:24] if tier == 'quick' else tj) + scale_jobs('C01', tier, harness='c01_pipe', extra_params=dict(cfg={}, wrapper=False))
+    return jobs + (tj[:24] if tier == 'quick' else random.Random(seed + 5).sample(tj, min(len(tj), 240))) + scale_jobs('C01', tier, harness='c01_pipe', extra_params=dict(cfg={}, wrapper=False))
 
 
 # ---------------------------------------------------------------- C06 marker / skip / tag-name decision
@@ -1167,6 +1178,10 @@ HIST = {
     'unwrap-children-on-both-wrapper-lines-and-between': ["A\n", O('t', E2 + ' unwrap-block'), "\nif (x) { ", O('t', E1), "a", C('t'), "\n", H(1, 'ind'), "k;\n", O('t', E1), "\nold;\n", C('t'),
                                                           "\n} ", O('t', E1), "b", C('t'), H(1, 'sp'), "\n", C('t'), "\nB\n"],
     'unwrap-children-on-both-wrapper-lines': ["A\n", O('t', E2 + ' unwrap-block'), "\nif (x) { ", O('t', E1), "a", C('t'), H(1, 'sp'), "\n  k;\n} ", O('t', E1), "b", C('t'), "\n", C('t'), "\nB\n"],
+    'indented-unwrap-child-then-blanks-only-line': ["A\n  ", O('t', E2 + ' unwrap-block'), "\n  {\n      a();\n      ", O('t', E1), "\n      old();\n      ", C('t'), "\n    ", H(2, 'ind'), "\n      b();\n  }\n  ",
+                                                    C('t'), "\nB\n"],
+    'two-opposite-crossings-then-ready': ["A", O('t', E1), "a", O('u'), "b", C('t'), "c", C('u'), "\n", O('u'), "d", O('t', E3), "e", C('u'), "f", C('t'), "\n", O('t', E1), "g", C('t'), H(1, 'ws'),
+                                          O('t', E2), "h", C('t'), "B"],
     'pending-forever': ["A\n", O('t', E3), "\n", H(2, 'ws'), O('t', E1), "\nq\n", C('t'), "\n", H(1, 'ws'), C('t'), "\nB\n"],
 }
 CHAINS = [  # (first configuration, second configuration): time non-decreasing, target sets growing
@@ -1293,10 +1308,31 @@ def c18_spelling(ctx, p):
             seen.add(k)
             uniq.append(b)
     cons = [b_not(b_eq(ds[0], 32)), b_not(b_eq(ds[0], 9))]  # a start delimiter beginning with a blank is indistinguishable from indentation
-    for dbyte in ds + de:
-        cons.append(b_not(b_eq(dbyte, 10)))
-        for b in uniq:
-            cons.append(b_not(b_eq(dbyte, b)))
+    if 'ds' in p:
+        # concrete second spelling: the side condition itself, not the byte-wise sufficient one - no match of the start delimiter can begin in
+        # the text (its first byte does not occur there) and the end delimiter does not occur inside a tag body; so delimiters may share
+        # blanks, '-', '!' ... with the text (the statement names delimiters containing spaces)
+        outside = []
+        for q in parts1:
+            if q['kind'] in ('lit', 'hole'):
+                outside += src1[q['start']:q['end']]
+        seen = set()
+        for b in outside:
+            k = b if isinstance(b, int) else ('s', b.get_id())
+            if k not in seen:
+                seen.add(k)
+                cons.append(b_not(b_eq(ds[0], b)))
+        bodies = [list(nm) for nm in names.values()] + [list(part[2].encode()) for part in tpl if isinstance(part, tuple) and part[0] == 'o' and len(part) > 2]
+        for body in bodies:
+            body = [47] + body + [32]
+            if any(body[i:i + len(de)] == de for i in range(len(body))) or any(body[i:i + len(ds)] == ds for i in range(len(body))):
+                cons.append(False)
+        cons += [b_not(b_eq(x, 10)) for x in ds + de]
+    else:
+        for dbyte in ds + de:
+            cons.append(b_not(b_eq(dbyte, 10)))
+            for b in uniq:
+                cons.append(b_not(b_eq(dbyte, b)))
     ctx.constrain(b_and(cons))
     if ctx.symbolic:
         cover_if(ctx, 'multibyte-delimiter', uge(ds[0], 0x80))
@@ -1368,4 +1404,11 @@ def c18_jobs(tier, seed):
             for (a, b, nl) in ([(1, 1, 1), (2, 2, 2)] if tier == 'quick' else [(1, 1, 1), (2, 2, 2), (3, 3, 1)]):
                 jobs.append(dict(harness='c18_spelling', label=f'{name} holes={sizes} symbolic |ds|={a}B |de|={b}B |names|={nl}B',
                                  params=dict(tpl=inst, ds_len=a, de_len=b, name_len=nl)))
+    # tags whose length in the '<' '>' spelling is exactly a power of two (1 KiB ... 64 KiB): any size guard that counts the delimiters or the
+    # tag name flips under a longer spelling
+    for k in ((12, 16) if tier == 'quick' else (10, 12, 13, 16)):
+        pad = (1 << k) - len("<m name='x' note=''>")
+        tpl = ["A\n", O('m', RX + " note='" + 'a' * pad + "'"), "\nq\n", C('m'), "\nB", H(1, 'txt'), "\n"]
+        for (ds, de), nm in ((POOL[1], names_pool[0]), (POOL[7], names_pool[1])):
+            jobs.append(dict(harness='c18_spelling', label=f'tag of 2^{k} bytes ds={ds!r} de={de!r} names={nm["t"]}/{nm["m"]}', params=dict(tpl=instantiate(tpl, [1]), ds=ds, de=de, names=nm)))
     return jobs
